@@ -25,8 +25,12 @@ class P(Prop):
                    "set-iteration order inside the patched run is the model's ordBy(seed) family"]
     budget = {"quick": (80, 100), "thorough": (1500, 2000)}
 
-    def gen_case(self):
+    def gen_case(self, big_ok=False):
         rng = self.rng
+        if big_ok and rng.random() < 0.08:
+            # many startpoints (the sampling-set line of the DIMACS file gets long), few gates
+            c = gen.circuit(rng, n_in=(11, 13), n_gates=(1, 2), max_arity=4, consts=0.0)
+            return c, ({rng.choice(sorted(c.graph.nodes)): True} if rng.random() < 0.5 else {})
         c = gen.circuit(rng, n_in=(0 if rng.random() < 0.1 else 1, 5), n_gates=(1, 7), max_arity=4, consts=0.25,
                         cyclic=rng.random() < 0.1, adversarial=rng.choice([0, 0, 0.3]))
         if rng.random() < 0.25 and len(c.graph.nodes) < 9:
@@ -42,8 +46,8 @@ class P(Prop):
         """the DIMACS instance of approx_model_count vs the model's text"""
         drv = self.driver()
         for i in range(n):
-            c, A = self.gen_case()
-            if len(c.graph.nodes) > 14:
+            c, A = self.gen_case(big_ok=True)
+            if len(c.graph.nodes) > 16:
                 continue
             cj = c_to_json(c)
             seed = self.rng.randint(0, 5)
@@ -69,7 +73,8 @@ class P(Prop):
                 d = f"DIMACS text differs:\nimpl={text!r}\nmodel={m['text']!r}"
             if d:
                 self.fail("corr", "dimacs", d, {"c": cj, "assumptions": A, "seed": seed})
-            elif o == "ok":
+            if o == "ok":
+                # the count a projected counter reports for the instance the code emitted, whatever its text looks like
                 want = brute_count(c, A, sorted(c.startpoints()))
                 if r != want:
                     self.fail("search", "dimacs-projected-count", f"projected count of the emitted instance {r} != {want}",
